@@ -384,6 +384,10 @@ def evaluate(ctx, cases):
             got = rows_multiset(o.get("opt"))
             answers = got is not None and ref is not None and got == ref
             nt["rows"] = None if got is None else len(got)
+            # the plan produced by JoinReorder alone, executed, must give the same answer too
+            alone = rows_multiset(o.get("reorder_only_result"))
+            nt["reorder_only_answer_ok"] = alone == ref
+            answers = answers and alone == ref
             if c["run_noopt"]:
                 # same statement through the bound, unoptimised plan
                 un = rows_multiset(o.get("noopt"))
